@@ -215,6 +215,7 @@ func offByOneIsRepairOnly(fn *core.Func, obj types.Object) bool {
 
 func ruleReadXRefOrder(c *core.Ctx) {
 	const rule = "C04-R2"
+	// helpers other than the section readers are transparent
 	fn := c.Prog.Func("pdf", "(*Reader).readXRef")
 	g := fn.Graph()
 	info := fn.Info()
@@ -921,12 +922,11 @@ func ruleC04Lexical(c *core.Ctx) {
 			if !ok || as.Tok != token.ASSIGN {
 				continue
 			}
+			if len(as.Lhs) != 1 {
+				continue // a tuple assignment is the result of the field decoder, not the default
+			}
 			if k, ok := core.IntConst(info, as.Rhs[0]); ok {
-				o.At(fn.Site(as, "default type"))
-				if k != 1 {
-					o.Fail("default entry type is %d, ISO 32000-2 7.5.8.2 says 1", k)
-				}
-				okDef = g.GuardedBy(dv, func(a core.Atom) bool {
+				widthZero := g.GuardedBy(dv, func(a core.Atom) bool {
 					cmp, ok := a.AsCmp()
 					if !ok || cmp.Op != token.EQL {
 						return false
@@ -934,6 +934,14 @@ func ruleC04Lexical(c *core.Ctx) {
 					k, ok := core.IntConst(info, cmp.R)
 					return ok && k == 0
 				})
+				if !widthZero {
+					continue
+				}
+				o.At(fn.Site(as, "default type"))
+				if k != 1 {
+					o.Fail("default entry type is %d, ISO 32000-2 7.5.8.2 says 1", k)
+				}
+				okDef = true
 			}
 		}
 		o.Require(okDef, "no `if w0 == 0 { tp = 1 }` default found")
